@@ -86,6 +86,10 @@ def run(repo, rep, tier):
     # format template already contains the (brace-carrying) key text makes
     # _format() raise KeyError / IndexError instead of the ValueError the
     # parser - and the CIMDateTime probe inside _kbstr_to_cimval - rely on
+    from .c06 import datetime_layout_rule
+    datetime_layout_rule(repo, rep, rep.rule(
+        'C07.R12', 'a datetime key is printed in the 25-character layout '
+        'that CIMDateTime(text) recognises on the way back'))
     r11 = rep.rule('C07.R11', 'error messages on the URI parse path can be '
                    'built (constant, well-formed format templates)')
     from ..guards import run_format_rule
